@@ -55,3 +55,14 @@ Theorem C03_judge_sound : forall rec cfg bot m n M tr rest,
   Forall_tree (fun P Cs => check_node P Cs = 0) tr.
 Proof. exact judge_tree_sound. Qed.
 Print Assumptions C03_judge_sound.
+
+(* ---------- the judge accepts EXACTLY the records that satisfy its specification (JudgeComplete3.v): completeness besides soundness,
+   a record of a correct answer is never rejected ---------- *)
+From Cmr Require JudgeComplete3.
+Theorem C03_judge_tree_accepts_exactly_the_specification :
+    forall (rec cfg : list Z) (bot : bool) (m n : nat) (M : mat) (rc : Z) (t : option TreeModel.tree)
+    (rest : list Z),
+    TreeProofs.tree_input rec = Some (cfg, bot, (m, n, M), rc, t, rest) ->
+    TreeModel.judge_tree rec = 0%Z <-> JudgeComplete3.tree_spec bot m n M rc t.
+Proof. exact JudgeComplete3.judge_tree_iff. Qed.
+Print Assumptions C03_judge_tree_accepts_exactly_the_specification.
